@@ -207,10 +207,20 @@ def harnesses(tier):
                           _harness(m, ns, d, ops, prefix),
                           {'initial_messages': m, 'sessions': ns, 'prefix': [list(x) for x in prefix], 'history_depth': d, 'ops': ops},
                           replay='history', task_budget=60))
+    from checks import c17_maildir, c04_maildir
+    mg = c04_maildir.bindings()
+    for n in ([2, 3] if tier == 'quick' else [2, 3, 4]):
+        hs.append(Harness('maildir_claim_recent[n=%d]' % n, c17_maildir.harness(mg, n),
+                          {'messages': n, 'in_new': 'any subset', 'uidlist_record_order': 'any permutation'},
+                          replay='mdclaim', task_budget=60))
     return hs
 
 
 def replay(harness, w):
+    if harness == 'mdclaim':
+        from checks import c17_maildir
+        bad = c17_maildir.replay(w)
+        return {'violates': bool(bad), 'detail': bad[:3], 'category': 'maildir claim_recent'}
     from checks import _sim
     g = _sim.bindings()
     bad = []
